@@ -1,7 +1,45 @@
-(* C13 — placeholder; replaced when Proofs/CliProofs.v is in. *)
+(* C13 — the command-line tool ends in a defined way on any file and any input.  Property theorems only.
+   Model: coq/Model/Cli.v — [run_cli level file stdin fuel] composes the extension test, UTF-8 decoding of the file
+   (Model/Utf8.v), the parser, optimisation, the replay of captured output, the execute loop with stdin as byte chunks
+   split at 0x0A and decoded per chunk; result: exit status with the bytes written, a diagnostic (status 1), still
+   running, or a panic site of the model (index out of bounds on the code vector, optimiser stuck).
+   Not provable here (exercised by tools/hv/clichecks.py): aborts that originate outside the modelled logic — stack
+   exhaustion on deep Drop, out-of-memory, SIGPIPE, clap/termcolor internals, other file-system errors.
+   The no-overflow facts for the arithmetic (u64 accumulators, u32 limb updates, sub_core indexing) are C05's. *)
 From Coq Require Import List NArith Bool.
 Import ListNotations.
-From HV Require Import Model.Exec Model.Opt Model.Utf8 Model.Cli.
-Theorem C13_bad_extension : forall level b stdin fuel, run_cli level (FBytes false b) stdin fuel = CDiag DgExt [] [].
-Proof. reflexivity. Qed.
-Print Assumptions C13_bad_extension.
+From HV Require Import Model.Parse Model.Exec Model.Opt Model.Utf8 Model.Cli Proofs.OptSpec Proofs.UniSpec.
+From HV Require Proofs.CliProofs.
+Open Scope N_scope.
+
+(* for any file bytes, file name class, stdin bytes, level and step budget: never a panic *)
+Theorem C13_run_never_panics : forall level file stdin fuel, run_cli level file stdin fuel <> CPanic.
+Proof. exact CliProofs.cli_no_panic. Qed.
+Print Assumptions C13_run_never_panics.
+
+Theorem C13_check_never_panics : forall file, check_cli file <> CPanic /\ check_cli file <> CRunning.
+Proof. exact CliProofs.check_no_panic. Qed.
+Print Assumptions C13_check_never_panics.
+
+(* the interpreter loop never indexes the code vector out of bounds *)
+Theorem C13_loop_in_bounds : forall fuel done todo s, targets_ok (N.of_nat (length done)) s ->
+  forall t, run_inc fuel done todo s <> FPanic t.
+Proof. exact CliProofs.run_inc_no_panic. Qed.
+Print Assumptions C13_loop_in_bounds.
+
+(* the expected diagnostic per failure class *)
+Theorem C13_diagnostics : forall level b stdin fuel,
+  run_cli level FUnreadable stdin fuel = CDiag DgFile [] [] /\
+  run_cli level (FBytes false b) stdin fuel = CDiag DgExt [] [] /\
+  (decode b = None -> run_cli level (FBytes true b) stdin fuel = CDiag DgUtf8File [] []).
+Proof. intros level b stdin fuel. repeat split; try reflexivity. intros H. unfold run_cli. rewrite H. reflexivity. Qed.
+Print Assumptions C13_diagnostics.
+
+Example C13_examples :
+  (* a program that reads a line which is not UTF-8; one that prints an unencodable value; overlong/surrogate files *)
+  run_cli 0 (FBytes true [237;157;145;32;237;149;173;46]) [255; 10] 100 = CDiag DgUtf8Stdin [] [] /\
+  (exists o e, run_cli 2 (FBytes true (encode ([54784;50612;50612;50612;50612;50612;50612;50633] ++ repeat 46 6912 ++ [32;54637;46]))) [] 100 = CDiag (DgEnc 55296) o e) /\
+  run_cli 1 (FBytes true [192; 128]) [] 100 = CDiag DgUtf8File [] [] /\
+  run_cli 1 (FBytes true [237; 160; 128]) [] 100 = CDiag DgUtf8File [] [].
+Proof. vm_compute. repeat split; try reflexivity. eexists. eexists. reflexivity. Qed.
+Print Assumptions C13_examples.
